@@ -227,6 +227,9 @@ def explore(
                         exc, tb = efilter.user_exc
                         if isinstance(exc, NotDeterministic):
                             raise exc
+                        if type(exc).__name__ == "HarnessStall" and "did not reach a preemption point" in str(exc):
+                            # the thread scheduler's watchdog fired (machine under load): no verdict for this path
+                            raise UnexploredPath("HarnessStall: %s" % (str(exc)[:160],))
                         with ResumedTracing():
                             space.detach_path(exc)
                         concrete = deep_realize(pre_args.arguments)
